@@ -7,6 +7,7 @@ import (
 	"encoding/json"
 	"errors"
 	"fmt"
+	"os"
 	"sort"
 	"sync"
 	"testing"
@@ -78,6 +79,9 @@ type fakeInformerMap struct {
 	deletes      int
 	readerCalls  int
 	rmu          sync.Mutex
+	// parkGet, when set, is called at the entry of Get (outside the map's own mutex): the harness uses it
+	// to hold one caller at the informer-map boundary while another operation runs.
+	parkGet      func(gvk schema.GroupVersionKind)
 	failNextGet  bool
 	failNextReg  bool
 	implicitMake int // informers created by a Get that did not come from Watch (detected by the harness)
@@ -88,6 +92,12 @@ func newFakeInformerMap() *fakeInformerMap {
 }
 
 func (m *fakeInformerMap) Get(_ context.Context, gvk schema.GroupVersionKind, _ runtime.Object) (cache.SharedIndexInformer, client.Reader, error) {
+	m.mu.Lock()
+	park := m.parkGet
+	m.mu.Unlock()
+	if park != nil {
+		park(gvk)
+	}
 	m.mu.Lock()
 	defer m.mu.Unlock()
 	m.getCalls++
@@ -586,4 +596,213 @@ func TestC12Race(t *testing.T) {
 		st.Case(c, shared)
 		st.Report(rt, c, err)
 	})
+}
+
+
+// ---- scheduled two-thread interleavings ------------------------------------------------------------
+
+type c12PairCase struct {
+	Part   string  `json:"part"`
+	Prefix []c12Op `json:"prefix"`
+	A      c12Op   `json:"a"` // runs first and is parked at the informer-map boundary (if it gets there)
+	B      c12Op   `json:"b"` // runs while A is parked (or blocks on A's lock until A is released)
+}
+
+func (w *c12World) apply(ctx context.Context, op c12Op) {
+	k := op.Kind % len(c12Kinds)
+	switch op.Op {
+	case "watch":
+		_ = w.c.Watch(ctx, c12Owner(op.Owner), c12Obj(k))
+	case "free":
+		_ = w.c.Free(ctx, c12Owner(op.Owner))
+	case "get":
+		_ = w.c.Get(ctx, client.ObjectKey{Namespace: "ns", Name: "x"}, c12Obj(k))
+	case "list":
+		l := &unstructured.UnstructuredList{}
+		gvk := c12Kinds[k]
+		gvk.Kind += "List"
+		l.SetGroupVersionKind(gvk)
+		_ = w.c.List(ctx, l)
+	}
+}
+
+func modelApply(m map[int]map[int]bool, op c12Op) {
+	k := op.Kind % len(c12Kinds)
+	switch op.Op {
+	case "watch":
+		if m[k] == nil {
+			m[k] = map[int]bool{}
+		}
+		m[k][op.Owner] = true
+	case "free":
+		for ki := range c12Kinds {
+			delete(m[ki], op.Owner)
+		}
+	}
+}
+
+func copyModel(m map[int]map[int]bool) map[int]map[int]bool {
+	out := map[int]map[int]bool{}
+	for k, v := range m {
+		out[k] = map[int]bool{}
+		for o := range v {
+			out[k][o] = true
+		}
+	}
+	return out
+}
+
+func liveMatches(w *c12World, m map[int]map[int]bool) bool {
+	live := map[string]bool{}
+	for _, k := range w.m.liveKinds() {
+		live[k] = true
+	}
+	for ki, gvk := range c12Kinds {
+		if live[gvk.Kind] != (len(m[ki]) > 0) {
+			return false
+		}
+	}
+	return true
+}
+
+func runC12Pair(c *c12PairCase) (parked bool, err error) {
+	ctx := context.Background()
+	w := newC12World(1)
+	model := map[int]map[int]bool{}
+	for _, op := range c.Prefix {
+		w.apply(ctx, op)
+		modelApply(model, op)
+	}
+	reached := make(chan struct{}, 1)
+	release := make(chan struct{})
+	var once sync.Once
+	w.m.mu.Lock()
+	w.m.parkGet = func(schema.GroupVersionKind) {
+		first := false
+		once.Do(func() { first = true })
+		if !first {
+			return
+		}
+		reached <- struct{}{}
+		<-release
+	}
+	w.m.mu.Unlock()
+	doneA := make(chan struct{})
+	go func() { defer close(doneA); w.apply(ctx, c.A) }()
+	select {
+	case <-reached:
+		parked = true
+	case <-doneA:
+	case <-time.After(2 * time.Second):
+		return false, fmt.Errorf("operation A neither finished nor reached the informer map")
+	}
+	doneB := make(chan struct{})
+	go func() { defer close(doneB); w.apply(ctx, c.B) }()
+	select {
+	case <-doneB:
+	case <-time.After(150 * time.Millisecond):
+		// B is blocked behind A's lock: that is a legal outcome (A's critical section covers the map access)
+	}
+	close(release)
+	for _, ch := range []chan struct{}{doneA, doneB} {
+		select {
+		case <-ch:
+		case <-time.After(5 * time.Second):
+			return parked, Violf("C12", "deadlock-under-interleaving", "prefix %v, A=%+v parked at the informer map, B=%+v: operations did not finish", c.Prefix, c.A, c.B)
+		}
+	}
+	w.m.mu.Lock()
+	w.m.parkGet = nil
+	w.m.mu.Unlock()
+	ab := copyModel(model)
+	modelApply(ab, c.A)
+	modelApply(ab, c.B)
+	ba := copyModel(model)
+	modelApply(ba, c.B)
+	modelApply(ba, c.A)
+	if !liveMatches(w, ab) && !liveMatches(w, ba) {
+		return parked, Violf("C12", "interleaving-not-linearizable",
+			"prefix %v, A=%+v held at the informer-map boundary while B=%+v ran: running informers %v match neither order of the two operations (owners A;B=%v B;A=%v)",
+			c.Prefix, c.A, c.B, w.m.liveKinds(), ab, ba)
+	}
+	w.m.mu.Lock()
+	defer w.m.mu.Unlock()
+	for gvk, inf := range w.m.live {
+		if len(inf.handlers) != 1 {
+			return parked, Violf("C12", "informer-without-handlers", "after interleaving A=%+v / B=%+v the informer for %s has %d handlers", c.A, c.B, gvk.Kind, len(inf.handlers))
+		}
+	}
+	return parked, nil
+}
+
+// TestC12Interleave enumerates two-operation interleavings in which the first operation is held at the
+// informer-map boundary while the second one runs (the harness owns this scheduling decision).
+func TestC12Interleave(t *testing.T) {
+	st := NewStats("C12", "interleave", "every pair (A,B) of Watch/Free/Get/List over 2 owners x 2 kinds after every prefix of 0-2 Watch/Free operations: A is started and held at the entry of the informer map (if it gets there), B runs to completion or blocks behind A's lock, then A is released; oracle = the set of running informers equals the owner-set model for one of the two sequential orders, handlers attached; non-trivial = A actually reached the informer map")
+	var ops []c12Op
+	for o := 0; o < 2; o++ {
+		for k := 0; k < 2; k++ {
+			ops = append(ops, c12Op{Op: "watch", Owner: o, Kind: k})
+		}
+		ops = append(ops, c12Op{Op: "free", Owner: o})
+	}
+	for k := 0; k < 2; k++ {
+		ops = append(ops, c12Op{Op: "get", Kind: k}, c12Op{Op: "list", Kind: k})
+	}
+	if *flagReplay != "" {
+		CheckOrReplay(t, st, func(data []byte) (any, error) {
+			var c c12PairCase
+			if err := json.Unmarshal(data, &c); err != nil {
+				return nil, err
+			}
+			_, err := runC12Pair(&c)
+			return &c, err
+		}, nil)
+		return
+	}
+	var prefixes [][]c12Op
+	prefixes = append(prefixes, nil)
+	wf := ops[:6]
+	for _, a := range wf {
+		prefixes = append(prefixes, []c12Op{a})
+	}
+	if *flagScale > 1 {
+		for _, a := range wf {
+			for _, b := range wf {
+				prefixes = append(prefixes, []c12Op{a, b})
+			}
+		}
+	} else {
+		prefixes = append(prefixes, []c12Op{wf[0], wf[3]}, []c12Op{wf[0], wf[1]}, []c12Op{wf[0], wf[2]})
+	}
+	shard, shards := 0, 1
+	fmt.Sscan(os.Getenv("VERIF_SHARD"), &shard)
+	fmt.Sscan(os.Getenv("VERIF_SHARDS"), &shards)
+	if shards < 1 {
+		shards = 1
+	}
+	n := 0
+	st.Exhaustive = true
+	for _, pre := range prefixes {
+		for _, a := range ops {
+			for _, b := range ops {
+				n++
+				if n%shards != shard%shards {
+					continue
+				}
+				c := &c12PairCase{Part: "interleave", Prefix: pre, A: a, B: b}
+				parked, err := runC12Pair(c)
+				st.Case(c, parked)
+				if err != nil {
+					if v, ok := err.(*Violation); ok && IsKnown(v) {
+						st.Known(v)
+						continue
+					}
+					st.Report(t, c, err)
+					return
+				}
+			}
+		}
+	}
+	st.SpaceSize = int64(n)
 }
